@@ -4,6 +4,7 @@
 #include "gridgen.h"
 #include "PolarGrid/polargrid.h"
 #include <climits>
+#include <optional>
 
 inline Outcome checkGrid(const PolarGrid& g, const std::vector<double>& radii, const std::vector<double>& angles,
                          bool explicitSplit, double split, uint64_t probeSeed, Outcome o)
@@ -125,22 +126,59 @@ inline Outcome checkGrid(const PolarGrid& g, const std::vector<double>& radii, c
     return o;
 }
 
+// ctor: 0 vectors (default), 1 parametric constructor (R0, Rmax, nr_exp, ntheta_exp, refinement, aniso, div), 2 files
+// (the case's arrays are written with 17 fixed digits and loaded by the file constructor). For 1 and 2 the coordinate
+// arrays the oracle compares with are the ones the grid reports (their validity is C18's subject); "every grid" of the
+// statement includes the grids the solver builds itself (refined, anisotropic) and copies/moves of a grid.
 inline Outcome runGridIndexCase(const KV& c)
 {
     Outcome o;
     auto radii  = c.getVD("radii");
     auto angles = c.getVD("angles");
+    const int ctor           = (int)c.getI("ctor", 0);
     const bool explicitSplit = c.getI("split_mode") == 1;
     const double split       = c.getD("split", 0.0);
     const bool expectReject  = c.getI("expect_reject", 0) != 0;
     const uint64_t seed      = c.getU("probe_seed");
+    std::optional<double> optSplit = explicitSplit ? std::optional<double>(split) : std::nullopt;
     std::unique_ptr<PolarGrid> g;
+    o.cls("ctor_" + std::to_string(ctor));
     try {
-        g = explicitSplit ? std::make_unique<PolarGrid>(radii, angles, split) : std::make_unique<PolarGrid>(radii, angles);
+        if (ctor == 1) {
+            g = std::make_unique<PolarGrid>(c.getD("p_R0"), c.getD("p_Rmax"), (int)c.getI("p_nr_exp"), (int)c.getI("p_ntheta_exp"),
+                                            c.getD("p_refinement"), (int)c.getI("p_aniso"), (int)c.getI("p_div"), optSplit);
+        }
+        else if (ctor == 2) {
+            const char* t          = getenv("TMPDIR");
+            const std::string base = std::string(t ? t : "/tmp") + "/verif_c17_" + std::to_string((long)getpid());
+            const std::string fr = base + "_r.txt", ft = base + "_t.txt";
+            {
+                FILE* f = fopen(fr.c_str(), "w");
+                for (double v : radii)
+                    fprintf(f, "%.17f\n", v);
+                fclose(f);
+                f = fopen(ft.c_str(), "w");
+                for (double v : angles)
+                    fprintf(f, "%.17f\n", v);
+                fclose(f);
+            }
+            struct Rm {
+                std::string a, b;
+                ~Rm()
+                {
+                    std::remove(a.c_str());
+                    std::remove(b.c_str());
+                }
+            } rm{fr, ft};
+            g = std::make_unique<PolarGrid>(fr, ft, optSplit);
+        }
+        else
+            g = explicitSplit ? std::make_unique<PolarGrid>(radii, angles, split) : std::make_unique<PolarGrid>(radii, angles);
     }
     catch (const std::invalid_argument&) {
         o.cls("rejected_invalid_argument");
-        if (!expectReject)
+        o.cls("rejected_ctor_" + std::to_string(ctor));
+        if (!expectReject && ctor == 0)
             o.fail("spurious_rejection", "an admissible grid was rejected");
         o.nontrivial = false;
         return o;
@@ -149,11 +187,40 @@ inline Outcome runGridIndexCase(const KV& c)
         o.fail("accepted_invalid", std::string("constructor accepted an inadmissible grid: ") + c.getS("reject_why", ""));
         return o;
     }
+    if (ctor != 0) {
+        radii  = g->radii();
+        angles = g->angles();
+        if (radii.size() < 2 || angles.size() < 3) {
+            o.fail("dims", "constructor returned a grid with fewer than two radii or two angular divisions");
+            return o;
+        }
+    }
+    // copies and moves of a grid index like the original (cached members travel with the object)
+    {
+        const int how = (int)(seed % 5);
+        if (how == 1) {
+            g = std::make_unique<PolarGrid>(*g);
+            o.cls("grid_copy_constructed");
+        }
+        else if (how == 2) {
+            std::vector<double> r2 = {0.25, 0.5, 1.0}, a2 = {0.0, M_PI / 2, M_PI, 3 * M_PI / 2, 2 * M_PI};
+            auto h = std::make_unique<PolarGrid>(r2, a2);
+            *h     = *g;
+            g      = std::move(h);
+            o.cls("grid_copy_assigned");
+        }
+        else if (how == 3) {
+            PolarGrid tmp(std::move(*g));
+            g = std::make_unique<PolarGrid>(std::move(tmp));
+            o.cls("grid_moved");
+        }
+    }
     const int nr = (int)radii.size(), nt = (int)angles.size() - 1;
     const int nC = g->numberSmootherCircles();
     const bool pow2 = (nt & (nt - 1)) == 0;
-    o.nontrivial    = !pow2 || nC == 0 || nC == nr || explicitSplit;
-    o.signature     = std::to_string(nr) + "x" + std::to_string(nt) + "c" + std::to_string(nC) + (explicitSplit ? "e" : "a");
+    o.nontrivial    = !pow2 || nC == 0 || nC == nr || explicitSplit || ctor != 0;
+    o.signature     = std::to_string(nr) + "x" + std::to_string(nt) + "c" + std::to_string(nC) + (explicitSplit ? "e" : "a") + "k" + std::to_string(ctor) +
+                  (ctor == 1 ? "d" + std::to_string(c.getI("p_div")) + "a" + std::to_string(c.getI("p_aniso")) : std::string());
     o.cls(pow2 ? "ntheta_pow2" : "ntheta_not_pow2");
     o.cls(explicitSplit ? "split_explicit" : "split_auto");
     if (nC == 0)
@@ -265,6 +332,22 @@ inline KV genGridIndexCase()
     c.putI("split_mode", mode);
     c.putD("split", split);
     c.putU("probe_seed", rseed());
+    // constructor: vectors (60%), the parametric constructor the solver uses (30%), files (10%)
+    const int ctor = why.empty() ? rweighted({6, 3, 1}) : 0;
+    c.putI("ctor", ctor);
+    if (ctor == 1) {
+        const int nr_exp = rint(2, 5);
+        const int aniso  = rweighted({3, 1, 1}) == 0 ? 0 : rint(1, std::min(nr_exp - 1, 3));
+        c.putD("p_R0", R0);
+        c.putD("p_Rmax", Rmax);
+        c.putI("p_nr_exp", nr_exp);
+        c.putI("p_ntheta_exp", rweighted({2, 3}) == 0 ? -1 : rint(2, 6));
+        c.putI("p_aniso", aniso);
+        c.putI("p_div", rweighted({2, 2, 1}));
+        c.putD("p_refinement", R0 + (Rmax - R0) * runi(0.3, 0.9));
+        if (mode == 1 && (split == radii[0] || rint(0, 2) == 0))
+            c.putD("split", runi(R0, Rmax));
+    }
     return c;
 }
 #endif
